@@ -29,6 +29,8 @@ class Contract:
     ghost_out: dict = field(default_factory=dict)    # name -> lambda source (Int -> Int), defined over the locals at exit
     locals: dict = field(default_factory=dict)       # local variable name -> type (for `x = []`)
     pure_result: bool = False                        # result is a deterministic function of arguments (no heap)
+    ensures_when: dict = field(default_factory=dict)  # 'then' / 'else' -> clauses, for returns={'when': cond, 'then': t, 'else': t}
+    entry_invariants: list = field(default_factory=list)  # object invariants assumed at entry when the body is verified (not at call sites)
     hints: list = field(default_factory=list)        # proof hints (sound by construction): 'eager-inst'
 
     def labelled(self, which):
